@@ -5,7 +5,7 @@ import ast
 import re
 from fractions import Fraction
 
-from ..astu import U, S, has, walk_shallow, call_name, calls_in, monomial, mono_str, fold, NotLiteral
+from ..astu import U, S, has, same, walk_shallow, call_name, calls_in, monomial, mono_str, fold, NotLiteral
 from ..cfg import find_guards
 from ..core import AnalysisError, Mutant, Rule, Twin
 from ..dims import (V, TOP, num, opaque, mk_dim, dim_str, lx_const, units_ns, constants_ns, si_value, Namespace)
@@ -51,6 +51,7 @@ FUNCS = [
     (PERM, "water_permittivity", dict(T=TEMP, P=PRESSURE), {}, False),
     (SULF, "sulfuric_acid_density", dict(w="number", T=TEMP), DENSITY, False),
     (SULF, "density_from_concentration", dict(conc=CONC, T=TEMP), DENSITY, False),
+    (SULF, "density_from_concentration", dict(conc=CONC, T=TEMP, molar_mass=MOLAR_MASS), DENSITY, False, "explicit-molar-mass"),
     (SCHU, "lg_solubility_ratio", dict(electrolytes="concmap", gas="str"), {}, False),
     (HENRY, "Henry_H_at_T", dict(T=TEMP, H=HENRY_DIM, Tderiv=TEMP), HENRY_DIM, False),
     (NERNST, "nernst_potential", dict(ion_conc_out=CONC, ion_conc_in=CONC, charge="number", T=TEMP), POTENTIAL, True),
@@ -85,9 +86,11 @@ def _analyse(ctx):
     units_v = units_ns(ctx.repo)
     consts_v = constants_ns()
     res = {}
-    for rel, name, spec, expect, has_c in FUNCS:
+    for entry in FUNCS:
+        rel, name, spec, expect, has_c = entry[:5]
+        variant = entry[5] if len(entry) > 5 else None
         ctx.func(rel, name)
-        modes = [("units", None)] + ([("units+constants", consts_v)] if has_c else [])
+        modes = [("units" + ("," + variant if variant else ""), None)] + ([("units+constants", consts_v)] if has_c else [])
         for mname, cv in modes:
             it = run(ctx.repo, rel, name, _params(spec, units_v, cv), units_extras=units_v.extra.extras)
             ctx.modes_seen.add("%s[%s]" % (name, mname))
@@ -118,7 +121,12 @@ def r1_homogeneity(ctx):
         if not bad:
             ctx.holds(a, "homogeneous[%s]" % mname)
     # result dimension
-    for rel, name, spec, expect, has_c in FUNCS:
+    seen_fn = set()
+    for entry in FUNCS:
+        rel, name, spec, expect, has_c = entry[:5]
+        if (rel, name) in seen_fn:
+            continue
+        seen_fn.add((rel, name))
         a = "%s:%s" % (rel, name)
         for (r2, n2, mname), it in res.items():
             if (r2, n2) != (rel, name):
@@ -136,7 +144,8 @@ def r1_homogeneity(ctx):
                           "the result has dimension %s, but the quantity it names has dimension %s" % (dim_str(v.dim), dim_str(expect)), node=it.fn,
                           found=dim_str(v.dim), expected=dim_str(expect))
     # hard-coded vs constants branch
-    for rel, name, spec, expect, has_c in FUNCS:
+    for entry in FUNCS:
+        rel, name, spec, expect, has_c = entry[:5]
         if not has_c:
             continue
         a = "%s:%s" % (rel, name)
@@ -284,11 +293,11 @@ def r4_inverse_helpers(ctx):
         ctx.check(c == 1 and got == want, HENRY + ":" + q, "inverse-pair", "%s returns %s; expected %s with H = self(T, **kwargs)" % (q, mono_str((c, p)), want), node=ret)
     fn = ctx.func(HENRY, "Henry.__call__")
     ret = [n for n in walk_shallow(fn) if isinstance(n, ast.Return)][-1]
-    ctx.check(S(ret.value) == "Henry_H_at_TT,self.Hcp,self.Tderiv,self.T0,units=units,backend=backend", HENRY + ":Henry.__call__", "own-parameters",
+    ctx.check(same(ret.value, "Henry_H_at_T(T, self.Hcp, self.Tderiv, self.T0, units=units, backend=backend)", scope=fn), HENRY + ":Henry.__call__", "own-parameters",
               "Henry.__call__ must evaluate Henry_H_at_T(T, self.Hcp, self.Tderiv, self.T0, units=, backend=)", node=ret)
     fn = ctx.func(HENRY, "Henry_H_at_T")
     ret = [n for n in walk_shallow(fn) if isinstance(n, ast.Return)][-1]
-    ctx.check(S(ret.value) == "H*be.expTderiv*1/T-1/T0", HENRY + ":Henry_H_at_T", "van-t-Hoff", "H(T) must be H * exp(Tderiv * (1/T - 1/T0)); found %s" % U(ret.value), node=ret)
+    ctx.check(same(ret.value, "H * be.exp(Tderiv * (1 / T - 1 / T0))", scope=fn), HENRY + ":Henry_H_at_T", "van-t-Hoff", "H(T) must be H * exp(Tderiv * (1/T - 1/T0)); found %s" % U(ret.value), node=ret)
     ctx.check(has(fn, "T0 = 298.15 * K"), HENRY + ":Henry_H_at_T", "T0-default", "reference temperature default must be 298.15 K", node=fn)
 
 
@@ -325,6 +334,8 @@ MUTANTS = [
     Mutant("henry-c-divides", [(HENRY, "return P * self(T, **kwargs)", "return P / self(T, **kwargs)")], "C19-R4", "inverse"),
     Mutant("henry-sign", [(HENRY, "return H * be.exp(Tderiv * (1 / T - 1 / T0))", "return H * be.exp(Tderiv * (1 / T0 - 1 / T))")], "C19-R4", "van-t-Hoff"),
 ]
+
+MUTANTS.append(Mutant("density-from-conc-drops-molar-mass-rescale", [(SULF, "        molar_mass = molar_mass.rescale(kg / mol)\n", "")], "C19-R2", "density_from_concentration"))
 
 TWINS = [
     Twin("viscosity-to-unitless-form", [(VISC, "        t = (t / K).simplified.magnitude\n", "        t = t.rescale(K).magnitude\n")]),
